@@ -86,6 +86,22 @@ def main(tier, seed):
       agg = explore.explore('vt.checks.c11', 'run_exec', params, b, seed=seed, pool=pool, split_levels=1 if b <= 2 else 2)
       agg.violations = [v for v in agg.violations if v['clause'].startswith('C12.')]
       rep.add_explore(name, agg, b, params=params)
+    # a deadline that fires while the periodic Tping (30 s after the open) is unanswered: the request is on the wire, so the peer must
+    # be sent a Tdiscarded naming its tag (the C08 script driver; the peer answers neither the second Tping nor the request)
+    from ..refcodec import mux as _M
+    for gap in ((0.1, 0.4) if tier == 'quick' else (0.05, 0.1, 0.2, 0.4, 0.45)):
+      pp = {'transport': 'mux', 'withhold': ['ping2', 'r2'],
+            'script': [['req', 'r1'], ['wait', 30.0 - gap, 1.0], ['req', 'r2', 0.5025], ['wait', 3.0, 0.05]]}
+      r = explore.pmap('vt.checks.c08', 'run_discard_probe', [(pp,)], pool, seed)[0]
+      types = [f[0] for f in r['frames']]
+      npings = types.count(_M.T_PING)
+      rep.add('evaluations', 1)
+      rep.part('mux transport: deadline of a sent request fires %.2f s before.. after the periodic Tping, Rping withheld' % gap,
+               engine='scripted', executions=1, frames_seen_by_peer=len(types), pings=npings, outcome=r['outcome'])
+      if npings >= 2 and 'r2=error(TimeoutError' in r['outcome'] and _M.T_DISCARDED not in types:
+        rep.add_violations([{'clause': 'C12.no-discard', 'message': 'request r2 was on the wire and timed out while the periodic Tping was '
+                             'unanswered, but the peer never received a Tdiscarded; frames seen by the peer: %r' % (r['frames'],),
+                             'sig': {'part': 'ping'}, 'replay': {'ping_probe': pp}}])
     # the hop "waiting for the balancer to open": driven at the balancer itself (engine B, vt/lbharness.py), because in the stacks the
     # public builders make the dispatcher holds a call back until the balancer is open
     from .. import bfs
@@ -115,6 +131,18 @@ def _unused_main(tier, seed):
 def replay(path):
   import json
   rp = json.load(open(path)).get('replay', {})
+  if 'ping_probe' in rp:
+    from . import c08
+    from .. import world
+    from ..refcodec import mux as _M
+    world.boot()
+    r = c08.run_discard_probe(rp['ping_probe'])
+    print('frames seen by the peer:', r['frames'])
+    print('outcome:', r['outcome'])
+    bad = _M.T_DISCARDED not in [f[0] for f in r['frames']]
+    if bad:
+      print('VIOLATION-DETAIL C12.no-discard no Tdiscarded reached the peer')
+    return 1 if bad else 0
   if 'history' in rp:
     from . import c03
     return c03.replay(path)
